@@ -1771,7 +1771,7 @@ class PseudoNetCDFFile(PseudoNetCDFSelfReg, object):
                     incrdenom = {'years': 1, 'days': yeardays,
                                  'hours': yeardays * 24,
                                  'minutes': yeardays * 24 * 60,
-                                 'seconds': yeardays * 24 * 60}[unit]
+                                 'seconds': yeardays * 24 * 3600}[unit]
                     fracyearincrs = time[:] / incrdenom + addyears
                     # Split into years and days
                     yearincrs = np.array(fracyearincrs // 1).astype('i')
